@@ -28,6 +28,19 @@ Definition rmap := dict revid (revid * list revid).
 Definition rm_get (m : rmap) (k : revid) := dict_get Nat.eqb m k.
 Definition rm_set (m : rmap) (k : revid) (v : revid * list revid) := dict_set Nat.eqb m k v.
 
+(* skipped: merges dropped because of skip_full_merged -> the revision that
+   takes their place (their only new parent) *)
+Definition skmap := dict revid revid.
+Definition sk_get (sk : skmap) (k : revid) := dict_get Nat.eqb sk k.
+Definition sk_set (sk : skmap) (k v : revid) : skmap := dict_set Nat.eqb sk k v.
+
+(* def rewritten(revid): replace_map[revid][0] if revid in replace_map else skipped.get(revid) *)
+Definition rewritten (m : rmap) (sk : skmap) (r : revid) : option revid :=
+  match rm_get m r with
+  | Some (n, _) => Some n
+  | None => sk_get sk r
+  end.
+
 (* ---- environment: graph queries ---------------------------------------- *)
 
 (* heads_cache.heads((p, onto)) == {onto} *)
@@ -54,13 +67,13 @@ Variable g : dag.
 Variable gen : revid -> list revid -> revid.     (* generate_revid(oldrevid, parents) *)
 
 (* "# Left parent:" *)
-Definition left_parents (m : rmap) (onto : revid) (oldparents : list revid) : list revid :=
+Definition left_parents (m : rmap) (sk : skmap) (onto : revid) (oldparents : list revid) : list revid :=
   match oldparents with
   | [] => [onto]                       (* (null:,): heads((null:, onto)) == {onto} *)
   | p0 :: _ =>
       if heads_is_onto g p0 onto then [onto]
-      else match rm_get m p0 with
-           | Some (n, _) => [n]
+      else match rewritten m sk p0 with
+           | Some n => [n]
            | None => [onto; p0]
            end
   end.
@@ -72,43 +85,50 @@ Definition first_is (x : revid) (l : list revid) : bool :=
   match l with [] => false | y :: _ => y =? x end.
 
 (* "# Other parents:"  the loop  for oldparent in oldparents[1:] *)
-Fixpoint other_parents (m : rmap) (onto : revid) (additional others acc : list revid) : list revid :=
+Fixpoint other_parents (m : rmap) (sk : skmap) (onto : revid) (additional others acc : list revid)
+  : list revid :=
   match others with
   | [] => acc
   | op :: rest =>
       let acc' :=
         if memb op additional then
           if heads_is_onto g op onto then acc
-          else match rm_get m op with
-               | Some (n, _) => if first_is onto acc then set_first n acc else acc ++ [n]
+          else match rewritten m sk op with
+               | Some n =>
+                   (* what replaces a dropped merge is there already *)
+                   if (n =? onto) || memb n acc then acc
+                   else if first_is onto acc then set_first n acc else acc ++ [n]
                | None => acc ++ [op]
                end
         else acc in
-      other_parents m onto additional rest acc'
+      other_parents m sk onto additional rest acc'
   end.
 
-Definition new_parents (m : rmap) (onto : revid) (oldparents : list revid) : list revid :=
-  let ps0 := left_parents m onto oldparents in
+Definition new_parents (m : rmap) (sk : skmap) (onto : revid) (oldparents : list revid) : list revid :=
+  let ps0 := left_parents m sk onto oldparents in
   match oldparents with
-  | _ :: ((_ :: _) as others) => other_parents m onto (heads g others) others ps0
+  | _ :: ((_ :: _) as others) => other_parents m sk onto (heads g others) others ps0
   | _ => ps0
   end.
 
 (* one trip round  for oldrevid in todo *)
-Definition plan_step (onto : revid) (skip : bool) (m : rmap) (old : revid) : result rmap :=
+Definition plan_step (onto : revid) (skip : bool) (st : rmap * skmap) (old : revid)
+  : result (rmap * skmap) :=
   let oldparents := parents g old in
-  let ps := new_parents m onto oldparents in
-  if (1 <? length oldparents) && (length ps =? 1) && skip then Ok m      (* continue *)
+  let ps := new_parents (fst st) (snd st) onto oldparents in
+  if (1 <? length oldparents) && (length ps =? 1) && skip
+  then Ok (fst st, sk_set (snd st) old (hd onto ps))      (* skipped[oldrevid] = parents[0]; continue *)
   else let n := gen old ps in
        if n =? old then Err AssertionError
-       else Ok (rm_set m old (n, ps)).
+       else Ok (rm_set (fst st) old (n, ps), snd st).
 
-Fixpoint plan_loop (onto : revid) (skip : bool) (todo : list revid) (m : rmap) : result rmap :=
+Fixpoint plan_loop (onto : revid) (skip : bool) (todo : list revid) (st : rmap * skmap)
+  : result (rmap * skmap) :=
   match todo with
-  | [] => Ok m
+  | [] => Ok st
   | old :: rest =>
-      match plan_step onto skip m old with
-      | Ok m' => plan_loop onto skip rest m'
+      match plan_step onto skip st old with
+      | Ok st' => plan_loop onto skip rest st'
       | Err e => Err e
       end
   end.
@@ -139,7 +159,7 @@ Definition simple_plan (todo_set order : list revid) (start stop : option revid)
                   else opt_or (hd_error order) IndexError
         end) (fun start' =>
   bind (todo_slice order start' stop') (fun todo =>
-  plan_loop onto skip todo []))).
+  bind (plan_loop onto skip todo ([], [])) (fun st => Ok (fst st))))).
 
 End Plan.
 
